@@ -158,9 +158,21 @@ def is_filter_empty(filter_like: Filter) -> bool:
   if isinstance(filter_like, bool):
     return not filter_like
   if isinstance(filter_like, DenyList):
-    # if any arbitrary collection is in the denylist it matches everything so
-    # the filter is empty. This is checked with a stub.
-    return in_filter(filter_like.deny, '__flax_internal_stub__')
+    # a DenyList is empty when the filter it denies matches every collection.
+    return _is_filter_full(filter_like.deny)
+  raise errors.InvalidFilterError(filter_like)
+
+
+def _is_filter_full(filter_like: Filter) -> bool:
+  """Returns True if `filter_like` matches every collection name."""
+  if isinstance(filter_like, str):
+    return False
+  if isinstance(filter_like, typing.Collection):
+    return False
+  if isinstance(filter_like, bool):
+    return filter_like
+  if isinstance(filter_like, DenyList):
+    return is_filter_empty(filter_like.deny)
   raise errors.InvalidFilterError(filter_like)
 
 
